@@ -46,10 +46,12 @@ impl ECIES {
 //@fn ECIES::derive_cipher_keys_impl
 //@fn ECIES::encrypt_impl
 //@fn ECIES::decrypt_impl
+//@wrapper ECIES::decrypt @ src/ecies/mod.rs = ECIES::decrypt_impl
 }
 impl ECIESCiphertext {
 //@fn ECIESCiphertext::to_bytes
 //@fn ECIESCiphertext::from_bytes_impl
+//@wrapper ECIESCiphertext::from_bytes @ src/ecies/ecies_ciphertext.rs = ECIESCiphertext::from_bytes_impl
 }
 // ---- property-level lemmas over the contracts above ----
 // both parties derive the same keys, and decryption inverts encryption (from the ECDH and AES-CBC axioms)
